@@ -175,9 +175,9 @@ func runProperty(w *World, prop, tier, vdir string, start time.Time, writeBaseli
 		resultCache[key] = r
 		rs = append(rs, r)
 	}
-	quickT, fullT := 3*time.Second, 60*time.Second
+	quickT, fullT := 3*time.Second, 25*time.Second
 	if tier == "thorough" {
-		quickT, fullT = 5*time.Second, 300*time.Second
+		quickT, fullT = 5*time.Second, 60*time.Second
 	}
 	discharge(rs, 16, quickT, fullT)
 
